@@ -1,6 +1,7 @@
 import PqModel.Spec.Thrift
 import PqModel.Spec.Snappy
 import PqModel.Spec.Inflate
+import PqModel.Spec.Lz4File
 import PqModel.Spec.PageDecode
 import PqModel.Layout
 import PqModel.FileMetaTrees
@@ -12,8 +13,9 @@ import PqModel.FileMetaTrees
     correctness is `Layout.layout_wf`) and reports every clause in which the file's metadata
     disagrees with the bytes that are present. Field ids are those of parquet.thrift.
 
-    Value level (chunks stored UNCOMPRESSED, with SNAPPY or with GZIP): every page body is decompressed with
-    the spec Snappy reader (`Spec.Snappy`) or the spec gzip reader (`Spec.Inflate`) and decoded with the SPEC decoders of the encodings
+    Value level (chunks stored UNCOMPRESSED, with SNAPPY, GZIP or LZ4_RAW): every page body is decompressed with
+    the spec Snappy reader (`Spec.Snappy`), the spec gzip reader (`Spec.Inflate`) or the spec LZ4 block reader
+    (`Spec.Lz4File.lz4Block` = `BlockCodecs.lz4Dec`, proved to invert every writable sequence list) and decoded with the SPEC decoders of the encodings
     (`Spec.PageDecode`): repetition/definition levels, dictionary, values. The counts the headers
     and indexes announce are compared with what was decoded, and `dumpFile` returns the Dremel
     streams (value, repetition level, definition level) of every leaf column. -/
@@ -133,7 +135,11 @@ def announcedSizeOk (d : ByteArray) (codec : Nat) (p : PageInfo) : Option Bool :
     if dataLen < 18 then some false else some (le d (dataPos + dataLen - 4) 4 == want % 4294967296)
   else none
 
-/-! ## value level: page bodies of UNCOMPRESSED (0), SNAPPY (1) and GZIP (2) chunks -/
+/-! ## value level: page bodies of UNCOMPRESSED (0), SNAPPY (1), GZIP (2) and LZ4_RAW (7) chunks -/
+
+/-- the codecs whose chunks are value-decoded: UNCOMPRESSED, SNAPPY, GZIP, LZ4_RAW (zstd 6 and
+    brotli 4 stay structural: no Lean reader of those formats) -/
+def valueCodec (codec : Nat) : Bool := codec ≤ 2 || codec == 7
 
 /-- what one data page holds once decoded -/
 structure PageData where
@@ -154,6 +160,11 @@ def partBytes (d : ByteArray) (codec : Nat) (compressed : Bool) (pos len : Nat) 
     match Inflate.gunzip (d.extract pos (pos + len)).toList with
     | .ok out => .ok (ByteArray.mk out.toArray)
     | .error _ => .error "gzip member does not decompress (inflate / CRC-32 / ISIZE)"
+  else if codec == 7 && compressed then
+    -- LZ4_RAW: one LZ4 block, no framing (`Spec.Lz4File.lz4Block`, equal to `BlockCodecs.lz4Dec`)
+    match Lz4File.lz4Block (Lz4File.blockAt d pos len) with
+    | .ok out => .ok (ByteArray.mk out)
+    | .error e => .error s!"lz4 block does not decompress ({Lz4File.errName e})"
   else .ok (d.extract pos (pos + len))
 
 /-- v1 level block at `pos` of the uncompressed body: `<4-byte LE length> <hybrid stream>` -/
@@ -250,7 +261,7 @@ structure ChunkDecode where
   dictCapped : Bool := false
   index : Nat := 0
 
-/-- decode every page of a chunk whose codec is 0, 1 or 2 -/
+/-- decode every page of a chunk whose codec is 0, 1, 2 or 7 (`valueCodec`) -/
 def decodeChunkPages (d : ByteArray) (leaf : Leaf) (codec : Nat) (pages : List PageInfo) : ChunkDecode :=
   let st := pages.foldl (fun (st : ChunkDecode) p =>
     let st := { st with index := st.index + 1 }
@@ -392,10 +403,10 @@ def checkChunk (d : ByteArray) (footerStart : Nat) (rgi ci : Nat) (leaf : Leaf) 
       let r := r.add (leaf.maxRep != 0 || model.numValues == rgRows) s!"{tag}: non-repeated column holds {model.numValues} values for {rgRows} rows"
       let r := r.add (datas.all (fun p => match p.numNulls with | some n => n ≤ p.op.numValues | none => true)) s!"{tag}: v2 num_nulls exceeds num_values"
       -- value level: decode every page of an uncompressed or snappy chunk with the spec decoders
-      let cd : ChunkDecode := if codec ≤ 2 then decodeChunkPages d leaf codec pages else {}
+      let cd : ChunkDecode := if valueCodec codec then decodeChunkPages d leaf codec pages else {}
       let r := cd.problems.foldl (fun (r : Report) m => r.add false s!"{tag}: {m}") r
       let r := { r with decodedPages := r.decodedPages + cd.decoded, cappedPages := r.cappedPages + cd.capped }
-      let allDecoded := codec ≤ 2 && cd.datas.length == datas.length && cd.datas.all (·.isSome)
+      let allDecoded := valueCodec codec && cd.datas.length == datas.length && cd.datas.all (·.isSome)
       let rowsD := cd.datas.map (fun (o : Option PageData) => match o with | some pd => pd.rows | none => 0)
       -- the row counts read off the repetition levels (this covers v1 pages of repeated columns)
       let r := r.add (!allDecoded || datas.isEmpty || rowsD.sum == rgRows) s!"{tag}: pages hold {rowsD.sum} rows (repetition levels equal to 0), row group announces {rgRows}"
@@ -549,13 +560,13 @@ def zipTriples (maxDef : Nat) : List Nat → List Nat → List Value → List Tr
   | _, _, _, acc => acc
 
 /-- the entries of one column chunk (reversed, prepended to `acc`); `.ok none` = the chunk's codec
-    is none of UNCOMPRESSED, SNAPPY, GZIP -/
+    is none of UNCOMPRESSED, SNAPPY, GZIP, LZ4_RAW -/
 def dumpChunk (d : ByteArray) (tag : String) (leaf : Leaf) (c : TVal) (acc : List Triple) : Except String (Option (List Triple)) :=
   match c.field? 3 with
   | none => .error s!"{tag}: no column meta data"
   | some m =>
     let codec := TVal.nat (m.field? 4)
-    if codec > 2 then .ok none else
+    if !valueCodec codec then .ok none else
     let dataOff := TVal.nat (m.field? 9)
     let totalComp := TVal.nat (m.field? 7)
     let first := match TVal.int? (m.field? 11) with
